@@ -15,7 +15,7 @@ RULE = ("each logical operation (evaluation, basis functions, knot insertion and
         "that only supports point + point and scalar * point; non-trivial = degree >= 1 and an interior knot")
 
 OPS = ["eval", "basis", "insert", "insert_remove", "elevate", "elevate_reduce", "split", "split_join", "add", "mul",
-       "div", "fit_curve", "fit_points", "integrate", "rational_eval", "rational_insert"]
+       "div", "fit_curve", "fit_points", "integrate", "rational_eval", "rational_insert", "fit_jump", "fit_points_unordered"]
 GENERIC = {"eval", "insert", "elevate", "split"}
 
 
@@ -30,7 +30,7 @@ def gen(tier, seed):
             integral = rnd.random() < 0.5
             P = [[F(rnd.randint(-9, 9)) if integral else F(rnd.randint(-36, 36), rnd.choice((2, 4, 3))) for _ in range(2)]
                  for _ in range(n)]
-            if op in ("add", "mul", "div", "integrate", "fit_points"):
+            if op in ("add", "mul", "div", "integrate", "fit_points", "fit_points_unordered", "fit_jump"):
                 P = [[pt[0]] for pt in P]
             cases.append({"U": fsl(U), "p": p, "kind": v["kind"], "mults": v["mults"], "op": op, "P": pts_json(P),
                           "P2": pts_json([[F(rnd.randint(1, 9))] for _ in range(n)]), "integral": integral,
@@ -138,6 +138,22 @@ def _run(case, conv, convp, generic=False):
         t = Curve(U)
         err = t.fit_curve(fine)
         return [t, err]
+    if op == "fit_jump":
+        # a source with a jump (interior knot of multiplicity degree + 1) projected onto the space without that knot
+        x = mids[0]
+        Uj = sorted(U + [x] * (p + 1 - U.count(x)))
+        src = Curve(Uj, [conv(F(((7 * i) % 11) - 5, 2)) for i in range(len(Uj) - p - 1)])
+        t = Curve(U)
+        err = t.fit_curve(src)
+        return [t, err]
+    if op == "fit_points_unordered":
+        t = Curve(U)
+        m = len(P)
+        zs = [conv(a + (b - a) * F(i, m - 1)) for i in range(m)] if p >= 1 else [conv(a + (b - a) * F(2 * i + 1, 2 * m)) for i in range(m)]
+        order = [0, m - 1] + list(range(1, m - 1)) if m > 2 else list(range(m))      # end points first
+        vals = [c(z) for z in zs]
+        t.fit_points([vals[i] for i in order], [zs[i] for i in order])
+        return t
     if op == "fit_points":
         t = Curve(U)
         m = len(P) + 2
